@@ -253,15 +253,37 @@ fn run_one(bin: &str, cfg: &Cfg, programs: &[Vec<u8>]) -> (Vec<String>, Vec<Stri
             if cfg.conn_limit <= 3 {
                 std::thread::sleep(Duration::from_millis(50));
                 let mut conns: Vec<TcpStream> = (0..cfg.conn_limit + 2).map(|_| TcpStream::connect(("127.0.0.1", cfg.port)).unwrap()).collect();
-                std::thread::sleep(Duration::from_millis(100));
-                let mut served = 0;
+                // one noop per connection, then wait for answers: a served connection keeps its slot, so the number of
+                // answered connections only grows; it must reach the limit (the slot of the probe connection above may
+                // take a moment to come back on a loaded machine) and never pass it
+                let mut answered = vec![false; conns.len()];
                 for (i, c) in conns.iter_mut().enumerate() {
                     c.set_nodelay(true).ok();
-                    let r = roundtrip(c, &wire::bare(op::NOOP, i as u32).bytes(), 250);
-                    if !r.is_empty() {
-                        served += 1;
+                    c.set_read_timeout(Some(Duration::from_millis(20))).ok();
+                    let _ = c.write_all(&wire::bare(op::NOOP, i as u32).bytes());
+                }
+                let t0 = Instant::now();
+                let mut full_since: Option<Instant> = None;
+                let mut buf = [0u8; 256];
+                while t0.elapsed() < Duration::from_millis(5000) {
+                    for (i, c) in conns.iter_mut().enumerate() {
+                        if !answered[i] {
+                            if let Ok(n) = c.read(&mut buf) {
+                                if n > 0 {
+                                    answered[i] = true;
+                                }
+                            }
+                        }
+                    }
+                    let served = answered.iter().filter(|a| **a).count() as u32;
+                    if served >= cfg.conn_limit {
+                        let since = *full_since.get_or_insert_with(Instant::now);
+                        if served > cfg.conn_limit || since.elapsed() > Duration::from_millis(400) {
+                            break;
+                        }
                     }
                 }
+                let served = answered.iter().filter(|a| **a).count() as u32;
                 if served != cfg.conn_limit {
                     viols.push((vec!["C20", "C17"], format!("{} of {} simultaneous connections are served under --connection-limit {}", served, cfg.conn_limit + 2, cfg.conn_limit)));
                 }
